@@ -414,3 +414,243 @@ func c12loopExit(c *Ctx, r *Result, fn *ssa.Function) {
 	}
 	r.Check(okAll, "C12.5", c.Name(fn)+"#loop-exit-means-no-room", c.Pos(off.Pos()), detail)
 }
+
+// ---- additional necessary conditions found by the third round of seeded changes ----
+
+func init() {
+	reg := registry["C12"]
+	reg.Meta.Rules["C12.6"] = "a byte slice handed to the heap writer is retained until the collection is flushed: at every call in a loop the argument is a buffer made in that iteration (never a buffer carried over from the previous element)"
+	reg.Meta.Rules["C12.7"] = "an upper bound the reader puts on the collection size is one the writer provably respects"
+	reg.Rules = append(reg.Rules, c12retainedBuffers, c12sizeBounds)
+}
+
+// retainsParam: fn stores its []byte parameter (without copying) into a struct field / composite literal, or passes it on to a
+// module function that does. Returns the indices of such parameters.
+func (c *Ctx) retainsParam(fn *ssa.Function, depth int) map[int]bool {
+	out := map[int]bool{}
+	if depth > 3 || len(fn.Blocks) == 0 {
+		return out
+	}
+	for i, p := range fn.Params {
+		sl, ok := p.Type().Underlying().(*types.Slice)
+		if !ok {
+			continue
+		}
+		if b, ok := sl.Elem().Underlying().(*types.Basic); !ok || b.Kind() != types.Uint8 {
+			continue
+		}
+		for _, ref := range *p.Referrers() {
+			switch x := ref.(type) {
+			case *ssa.Store:
+				if x.Val == ssa.Value(p) {
+					if _, isFA := x.Addr.(*ssa.FieldAddr); isFA {
+						out[i] = true
+					}
+				}
+			case *ssa.Call:
+				callee := x.Call.StaticCallee()
+				if callee == nil || !inModule(fnPkgPath(callee)) {
+					continue
+				}
+				sub := c.retainsParam(callee, depth+1)
+				for ai, a := range x.Call.Args {
+					if a == ssa.Value(p) && sub[ai] {
+						out[i] = true
+					}
+				}
+			}
+		}
+	}
+	return out
+}
+
+// freshInIteration: v is a buffer created where it is used: make, []byte(string), or the result of a module function all of whose
+// returns are such; never a phi, a parameter, a field load or a re-slice of one of those.
+func (c *Ctx) freshBuffer(v ssa.Value, depth int) bool {
+	if depth > 4 {
+		return false
+	}
+	switch x := v.(type) {
+	case *ssa.MakeSlice:
+		return true
+	case *ssa.Convert:
+		if b, ok := x.X.Type().Underlying().(*types.Basic); ok && b.Info()&types.IsString != 0 {
+			return true
+		}
+	case *ssa.Slice:
+		return c.freshBuffer(x.X, depth+1)
+	case *ssa.Call:
+		if b, ok := x.Call.Value.(*ssa.Builtin); ok && b.Name() == "append" {
+			// append to a fresh or nil slice yields an unshared buffer only if the base is fresh/nil
+			if k, isK := x.Call.Args[0].(*ssa.Const); isK && k.IsNil() {
+				return true
+			}
+			return c.freshBuffer(x.Call.Args[0], depth+1)
+		}
+		f := x.Call.StaticCallee()
+		if f == nil || len(f.Blocks) == 0 {
+			return false
+		}
+		n := 0
+		for _, ret := range returnsOf(f) {
+			if len(ret.Results) == 0 {
+				return false
+			}
+			n++
+			if !c.freshBuffer(ret.Results[0], depth+1) {
+				return false
+			}
+		}
+		return n > 0
+	case *ssa.Extract:
+		if call, ok := x.Tuple.(*ssa.Call); ok {
+			f := call.Call.StaticCallee()
+			if f == nil || len(f.Blocks) == 0 {
+				return false
+			}
+			n := 0
+			for _, ret := range returnsOf(f) {
+				if !isSuccessReturn(ret) {
+					continue
+				}
+				n++
+				if !c.freshBuffer(retOperand(ret, x.Index), depth+1) {
+					return false
+				}
+			}
+			return n > 0
+		}
+	}
+	return false
+}
+
+func c12retainedBuffers(c *Ctx, r *Result) {
+	n := 0
+	for _, fn := range c.LibFuncs() {
+		if shortPkg(fnPkgPath(fn)) != "hdf5" {
+			continue
+		}
+		for _, site := range callsIn(fn) {
+			callee := site.Common().StaticCallee()
+			if callee == nil || !strings.Contains(c.Name(callee), "globalHeap") {
+				continue
+			}
+			ret := c.retainsParam(callee, 0)
+			if len(ret) == 0 {
+				continue
+			}
+			in := site.(ssa.Instruction)
+			// only calls that can execute more than once per invocation (inside a loop) share a buffer between elements
+			inLoop := false
+			for _, s := range in.Block().Succs {
+				if reachableFrom(s, nil)[in.Block()] {
+					inLoop = true
+				}
+			}
+			for ai := range ret {
+				if ai >= len(site.Common().Args) {
+					continue
+				}
+				arg := site.Common().Args[ai]
+				if _, isParam := arg.(*ssa.Parameter); isParam && !inLoop {
+					continue // forwarded: judged at the caller's call site
+				}
+				n++
+				ok := c.freshBuffer(arg, 0)
+				r.Check(ok || !inLoop, "C12.6", c.Name(fn)+"#heap-argument-is-fresh", c.InstrPos(in), "the heap writer keeps the slice until the collection is flushed; the argument must be a buffer made for this element, not one reused from the previous element (later elements would overwrite pending ones)")
+			}
+		}
+	}
+	if n < 5 {
+		r.Errorf("C12.6: only %d call sites of the retaining heap functions found", n)
+	}
+	r.Floor("C12.6", 5)
+}
+
+func c12sizeBounds(c *Ctx, r *Result) {
+	rd := c.Fn(r, "core.ReadGlobalHeapCollection")
+	wr := c.Fn(r, "hdf5.globalHeapWriter.createNewHeap")
+	if rd == nil || wr == nil {
+		return
+	}
+	// the size value: length of the collection buffer the reader allocates
+	var size ssa.Value
+	fromFile := func(v ssa.Value) bool {
+		seen := map[ssa.Value]bool{}
+		var walk func(v ssa.Value) bool
+		walk = func(v ssa.Value) bool {
+			if v == nil || seen[v] {
+				return false
+			}
+			seen[v] = true
+			switch x := v.(type) {
+			case *ssa.Call:
+				n := c.calleeName(x)
+				return strings.HasSuffix(n, ".Uint64") || strings.HasSuffix(n, ".Uint32")
+			case *ssa.Convert:
+				return walk(x.X)
+			case *ssa.Phi:
+				for _, e := range x.Edges {
+					if walk(e) {
+						return true
+					}
+				}
+			}
+			return false
+		}
+		return walk(v)
+	}
+	instrs(rd, func(in ssa.Instruction) {
+		if mk, ok := in.(*ssa.MakeSlice); ok && size == nil && fromFile(mk.Len) {
+			size = mk.Len
+		}
+	})
+	if size == nil {
+		r.Errorf("C12.7: collection buffer allocation not found in ReadGlobalHeapCollection")
+		return
+	}
+	fbR := c.FB(rd)
+	sizeLin := fbR.lin(size)
+	var bounds []int64
+	for _, b := range rd.Blocks {
+		ifi, ok := b.Instrs[len(b.Instrs)-1].(*ssa.If)
+		if !ok {
+			continue
+		}
+		cmp, ok := ifi.Cond.(*ssa.BinOp)
+		if !ok || (cmp.Op != token.GTR && cmp.Op != token.GEQ) {
+			continue
+		}
+		k, isK := constInt(cmp.Y)
+		if !isK || !fbR.lin(cmp.X).equal(sizeLin) {
+			continue
+		}
+		if ret, isRet := b.Succs[0].Instrs[len(b.Succs[0].Instrs)-1].(*ssa.Return); isRet && !isSuccessReturn(ret) {
+			if cmp.Op == token.GEQ {
+				k--
+			}
+			bounds = append(bounds, k)
+		}
+	}
+	// writer: the size passed to Allocate
+	fbW := c.FB(wr)
+	var alloc *ssa.Call
+	for _, site := range callsIn(wr) {
+		if strings.HasSuffix(c.calleeName(site), ".Allocate") {
+			alloc, _ = site.(*ssa.Call)
+		}
+	}
+	if alloc == nil {
+		r.Errorf("C12.7: createNewHeap no longer allocates the collection")
+		return
+	}
+	if len(bounds) == 0 {
+		r.Hold("C12.7", "core.ReadGlobalHeapCollection~hdf5.globalHeapWriter.createNewHeap#size-bounds-agree", c.Pos(rd.Pos()), "the reader imposes no upper bound on the collection size; every size the writer produces is accepted")
+	}
+	for _, K := range bounds {
+		arg := alloc.Call.Args[len(alloc.Call.Args)-1]
+		ok := fbW.ProveGE0At(linConst(K).add(fbW.lin(arg), -1), alloc)
+		r.Check(ok, "C12.7", "core.ReadGlobalHeapCollection~hdf5.globalHeapWriter.createNewHeap#size-bounds-agree", c.InstrPos(alloc), "the reader rejects collections larger than "+itoa64(K)+" bytes, but the writer sizes a collection after its largest object ("+fbW.linString(fbW.lin(arg))+") without that bound: elements above the bound cannot be read back")
+	}
+	r.Floor("C12.7", 1)
+}
